@@ -20,7 +20,7 @@
    reached with ONE operand-stack height and ONE handler stack (per in-flight flag).  Violations
    are collected as records in `problems` (so that one run lists them all); WellFormed says
    there are none.                                                                             *)
-EXTENDS Integers, Sequences, FiniteSets, TLC, Json, IOUtils
+EXTENDS Integers, Sequences, FiniteSets, TLC, Json, IOUtils, Opcodes
 
 Fns == TLCEval(ndJsonDeserialize(IOEnv.BYTECODE))
 
@@ -30,48 +30,6 @@ VARIABLES fi,          \* index of the function being analysed (Len(Fns)+1 = don
           problems,    \* set of problem records found in the current function
           nstates      \* abstract states recorded so far in this function (evidence)
 vars == <<fi, amap, work, problems, nstates>>
-
-OpNames == <<"Constant","Nil","True","False","Pop","CopyTop","GetLocal","SetLocal","GetGlobal","DefineGlobal",
-  "SetGlobal","GetUpvalue","SetUpvalue","GetProperty","SetProperty","GetClass","GetSuper","Equal","Greater","Less",
-  "Add","Subtract","Multiply","Divide","BitwiseAnd","BitwiseOr","BitwiseXor","Modulo","LogicalNot","BitwiseNot",
-  "BitShiftLeft","BitShiftRight","Negate","GetItem","SetItem","FormatString","BuildHashMap","BuildRange","BuildString",
-  "BuildTuple","BuildVec","IterNext","Jump","JumpIfFalse","JumpIfStopIter","Loop","JumpFinally","EndFinally",
-  "PushExcHandler","PopExcHandler","Throw","Call","Invoke","Construct","SuperInvoke","Closure","CloseUpvalue","Return",
-  "DeclareClass","DefineClass","Inherit","Method","StaticMethod","StartImport","FinishImport">>
-
-(* operand sizes as the VM reads them (the disassembler's table differs for PopExcHandler) *)
-Two == {"Constant","GetGlobal","DefineGlobal","SetGlobal","GetProperty","SetProperty","GetSuper","Jump","JumpIfFalse",
-        "JumpIfStopIter","Loop","Closure","DeclareClass","Method","StaticMethod","StartImport"}
-One == {"GetLocal","SetLocal","GetUpvalue","SetUpvalue","BuildHashMap","BuildString","BuildTuple","BuildVec","Call","Construct"}
-Sizes(n) == IF n \in Two THEN <<2>> ELSE IF n \in One THEN <<1>>
-            ELSE IF n = "PushExcHandler" THEN <<2, 2>>
-            ELSE IF n \in {"Invoke", "SuperInvoke"} THEN <<2, 1>> ELSE <<>>
-
-Plus1  == {"Constant","Nil","True","False","CopyTop","GetLocal","GetGlobal","GetUpvalue","IterNext","DeclareClass","Closure"}
-Minus1 == {"Pop","CloseUpvalue","DefineGlobal","SetProperty","GetSuper","Equal","Greater","Less","Add","Subtract","Multiply",
-           "Divide","Modulo","BitwiseAnd","BitwiseOr","BitwiseXor","BitShiftLeft","BitShiftRight","GetItem","BuildRange",
-           "Inherit","Method","StaticMethod","FinishImport"}
-Zero   == {"SetLocal","SetGlobal","SetUpvalue","GetProperty","GetClass","LogicalNot","FormatString","BitwiseNot","Negate",
-           "Construct","DefineClass","PushExcHandler","PopExcHandler"}
-Raises == {"GetGlobal","SetGlobal","GetProperty","SetProperty","GetSuper","Greater","Less","Add","Subtract","Multiply","Divide",
-           "Modulo","BitwiseAnd","BitwiseOr","BitwiseXor","BitShiftLeft","BitShiftRight","BitwiseNot","Negate","GetItem","SetItem",
-           "BuildHashMap","BuildRange","IterNext","Call","Invoke","SuperInvoke","Inherit","StartImport","Throw"}
-NameOps == {"GetGlobal","SetGlobal","DefineGlobal","GetProperty","SetProperty","GetSuper","Invoke","SuperInvoke","DeclareClass",
-            "Method","StaticMethod","StartImport"}
-(* minimum operand-stack height an instruction needs above the frame's slot 0 (what it pops / peeks) *)
-Needs(n, a, b) ==
-    CASE n \in {"Pop","CloseUpvalue","DefineGlobal","CopyTop","SetLocal","SetGlobal","SetUpvalue","GetProperty","GetClass",
-                "LogicalNot","FormatString","BitwiseNot","Negate","JumpIfFalse","JumpIfStopIter","Throw","Return","IterNext",
-                "JumpFinally","Method","StaticMethod","DefineClass"} -> 1
-      [] n \in {"SetProperty","GetSuper","Equal","Greater","Less","Add","Subtract","Multiply","Divide","Modulo","BitwiseAnd",
-                "BitwiseOr","BitwiseXor","BitShiftLeft","BitShiftRight","GetItem","BuildRange","Inherit","FinishImport"} -> 2
-      [] n = "SetItem" -> 3
-      [] n \in {"BuildString","BuildTuple","BuildVec"} -> a
-      [] n = "BuildHashMap" -> 2 * a
-      [] n \in {"Call","Construct"} -> a + 1
-      [] n = "Invoke" -> b + 1
-      [] n = "SuperInvoke" -> b + 2
-      [] OTHER -> 0
 
 F == Fns[fi]
 Code == F.code
@@ -85,30 +43,7 @@ Rec(c, f, h, s) == <<c, f, h, s>>          \* handler record: catch pc, finally 
 Problem(sig, pc, detail) == [fn |-> F.id, sig |-> sig, pc |-> pc, detail |-> detail]
 
 (* ---- one abstract step: successors and problems of state st at pc ------------------------- *)
-Decode(pc) ==
-    LET op == Byte(pc) IN
-    IF op >= Len(OpNames) THEN [ok |-> FALSE, n |-> "?", a |-> 0, b |-> 0, nxt |-> pc + 1]
-    ELSE LET n == OpNames[op + 1]
-             sz == Sizes(n)
-             need == IF sz = <<>> THEN 0 ELSE IF Len(sz) = 1 THEN sz[1] ELSE sz[1] + sz[2]
-         IN IF pc + need >= N THEN [ok |-> FALSE, n |-> n, a |-> 0, b |-> 0, nxt |-> pc + 1 + need]
-            ELSE LET a == IF sz = <<>> THEN 0 ELSE IF sz[1] = 1 THEN Byte(pc + 1) ELSE U16(pc + 1)
-                     b == IF Len(sz) < 2 THEN 0 ELSE IF sz[2] = 1 THEN Byte(pc + 3) ELSE U16(pc + 3)
-                     extra == IF n = "Closure" /\ a < Len(F.ckind) /\ F.ckind[a + 1] = "fn" THEN 2 * F.cupv[a + 1] ELSE 0
-                 IN [ok |-> TRUE, n |-> n, a |-> a, b |-> b, nxt |-> pc + 1 + need + extra]
-
-Delta(n, a, b) ==
-    CASE n \in Plus1 -> 1
-      [] n \in Minus1 -> -1
-      [] n \in Zero -> 0
-      [] n = "SetItem" -> -2
-      [] n \in {"BuildString","BuildTuple","BuildVec"} -> 1 - a
-      [] n = "BuildHashMap" -> 1 - 2 * a
-      [] n = "Call" -> -a
-      [] n = "Invoke" -> -b
-      [] n = "SuperInvoke" -> -1 - b
-      [] n = "StartImport" -> 2
-      [] OTHER -> 0
+Decode(pc) == DecodeIn(F, pc)
 
 Top(s) == s[Len(s)]
 Pop(s) == SubSeq(s, 1, Len(s) - 1)
